@@ -64,13 +64,15 @@ Mn(e)     == IF IsMips(e) THEN MMn(Words(e)[1]) ELSE PMn(Words(e)[1])
 CrName(i) == "cr" \o ToString((i - 1) \div 4) \o (CASE (i - 1) % 4 = 0 -> "lt" [] (i - 1) % 4 = 1 -> "gt"
                                                    [] (i - 1) % 4 = 2 -> "eq" [] OTHER -> "so")
 C(n, ew, ev, o) == [n |-> n, ew |-> ew, ev |-> ev, ow |-> o.w, ov |-> o.v]
+RegNames == [i \in 0..31 |-> "r" \o ToString(i)]           \* constant tables: evaluated once
+CrNames  == [i \in 1..32 |-> CrName(i)]
 Comps(e, st) ==
   IF IsMips(e)
-  THEN [i \in 1..31 |-> C("r" \o ToString(i), 32, st.gpr[i + 1], e.post.gpr[i + 1])]      \* $zero is not a component
+  THEN [i \in 1..31 |-> C(RegNames[i], 32, st.gpr[i + 1], e.post.gpr[i + 1])]             \* $zero is not a component
        \o <<C("hi", 32, st.hi, e.post.hi), C("lo", 32, st.lo, e.post.lo)>>
-  ELSE [i \in 1..32 |-> C("r" \o ToString(i - 1), 32, st.gpr[i], e.post.gpr[i])]
+  ELSE [i \in 1..32 |-> C(RegNames[i - 1], 32, st.gpr[i], e.post.gpr[i])]
        \o <<C("lr", 32, st.lr, e.post.lr), C("ctr", 32, st.ctr, e.post.ctr), C("ca", 1, <<st.ca>>, e.post.ca)>>
-       \o [i \in 1..32 |-> C(CrName(i), 1, <<st.cr[i]>>, e.post.cr[i])]
+       \o [i \in 1..32 |-> C(CrNames[i], 1, <<st.cr[i]>>, e.post.cr[i])]
 
 \* pages the executor wrote to must be pages of the data window
 PageBase(a)  == <<0, a[2] - (a[2] % 4), a[3], a[4]>>                      \* 1 KiB pages
